@@ -10,6 +10,61 @@ ENCODE_KEY = r"WALRecord<T> as codeq::Encode>::encode$"
 NEXT_RX = r"iter::Iterator>?::next$"
 
 
+READERS = [(r"RaftLog::<T>::read::\{closure#\d+\}$", "read"), (r"DumpRaftLogIter<'_, T> as std::iter::Iterator>::next$", "dump-iter")]
+
+
+def r09_7(ctx, rep):
+    """R09.7: in both cache-miss readers, bytes fetched from a chunk file reach a non-Err item only across the Ok edge of verify_checksum."""
+    rep.rule("R09.7", "in every reader that fetches an entry from a chunk file (RaftLog::read on a cache miss, the dump iterator), each path from "
+                      "the file read to a yielded non-Err item crosses the Ok edge of verify_checksum: bytes from disk are never returned "
+                      "unverified")
+    for rx, name in READERS:
+        key = ctx.body_key(rx)
+        g = ctx.graph(key)
+        P = ctx.product(key)
+        preads = set(P.calls(r"FileExt::(read_exact_at|read_at)$|io::Read::(read|read_exact|read_to_end)$|io::Seek::seek$"))
+        preads = {n for n in preads if not g.term(n).get("exp")}
+        ver = set(P.calls(r"verify_checksum$"))
+        if not rep.expect("R09.7", "%s: file read on the miss path" % name, len(preads) >= 1, "no file read found in the reader", where=g.where(g.entry)):
+            continue
+
+        # state: None = nothing read from disk yet, False = read and not verified, True = verified since the last read
+        def step(ms, pi, qi, learn):
+            n = P.gnode(pi)
+            if n in preads:
+                ms = "unverified"
+            for o, v in norm_learn(learn):
+                if origin_call(o) in ver and v in OKV and ms == "unverified":
+                    ms = "verified"
+            return ms
+        seen = run_monitor(P, "none", step)
+        bad = None
+        n_ok = 0
+        for (pi, ms0, ms) in finals(P, seen, step):
+            if P.gnode(pi) not in g.exits:
+                continue
+            t0 = P.tags_after_block(pi)
+            tag = t0.get((0, 0, ()))
+            inner = t0.get((0, 0, ("0",)))
+            is_err = (tag and tag[0] in ("Err", "None")) or (inner and inner[0] == "Err")
+            if is_err:
+                continue
+            if ms == "unverified":
+                bad = (pi, ms0)
+            elif ms == "verified":
+                n_ok += 1
+        if bad:
+            rep.violation("R09.7", "%s|disk-bytes-returned-unverified" % name, "%s: yielded item" % name,
+                          "an entry read from a chunk file can be yielded without its checksum having been verified: a damaged complete record "
+                          "is returned as data (or trips a later assertion) instead of failing the read", where=g.where(P.gnode(bad[0])),
+                          path=describe_path(P, [k_[0] for k_ in path_to(seen, bad)]))
+        else:
+            rep.expect("R09.7", "%s: verified exits" % name, n_ok >= 1, "no exit state follows a verified disk read (rule would be vacuous)",
+                       where=g.where(g.entry)) and \
+                rep.ok("R09.7", "%s: disk read -> verify_checksum Ok -> item" % name, "%d file read site(s), %d verified exit state(s)" % (len(preads), n_ok),
+                       where=g.where(sorted(preads)[0]))
+
+
 def r09_1_2(ctx, rep):
     # ---- decode ----
     key = ctx.body_key(DECODE_KEY)
@@ -290,6 +345,7 @@ def run(ctx, rep):
     rep.rule("R09.5", "a record decode error never leads to an Ok open except through the tolerated truncation")
     rep.rule("R09.6", "the recovery truncation is restricted to the newest chunk")
     r09_1_2(ctx, rep)
+    r09_7(ctx, rep)
     M = OpenModel(ctx)
     g, P = M.g, M.P
     seen = M.run()
